@@ -38,10 +38,14 @@ def default_classifier(F):
     idx = st["rv"]["fields"].index("which_scenario")
     sl = A.slice_back(d, [st["rv"]["ops"][idx]])
     cl = [rv["def"] for _, rv in sl.aggs if rv.get("agg") == "closure"]
-    if len(cl) != 1:
-        raise Unverifiable(f"default which_scenario does not slice to one closure: {cl}")
-    cb = F.body(cl[0])
-    return d, cb
+    if len(cl) == 1:
+        return d, F.body(cl[0])
+    # ... or a private fn item
+    fns = [F.body(f.get("res") or f["path"], d.crate) or F.body(f["path"], d.crate) for f in sl.fns if f.get("local")]
+    fns = [b for b in fns if b is not None]
+    if len(fns) != 1:
+        raise Unverifiable(f"default which_scenario does not slice to one closure / fn item: {cl} {[b.name for b in fns]}")
+    return d, fns[0]
 
 
 def r1(F, R):
@@ -67,7 +71,20 @@ def r1(F, R):
     R.check(strs == ["serial"], "classifier-tag-literal", cb, 'compares with "serial"', f"default classifier compares tags with {strs}")
     # the searched iterator is the unconditional union of the three tag levels
     searches = [(b, s, t) for b in bodies for s, t in b.calls(lambda t: callee_is(t, r"Iterator::(find|any|position|find_map)$"))]
-    R.check(len(searches) == 1, "classifier-search", cb, "one search over the tags", f"{len(searches)} searches in the classifier")
+    cmps = [(b, s, t) for b in bodies for s, t in b.calls(lambda t: callee_is(t, r"PartialEq.*::(eq|ne)$")) if b.in_cycle(s) and
+            any(const_str(c) == "serial" for c in A.slice_back(b, list(t["args"])).consts)]
+    if not searches and len(cmps) == 1:
+        # explicit-loop spelling (`for tags in [..] { for tag in tags { if tag == "serial" {..} } }`): one comparison with the literal, inside a
+        # loop, and what is compared derives from the tags of all three levels (weaker than the union rule below: which level is consulted
+        # when is not decided in this form)
+        b, s_c, t_c = cmps[0]
+        R.ok("classifier-search", s_c, "one comparison with the literal inside a loop")
+        ds = A.deep_slice(F, b, list(t_c["args"]))
+        got = {o for o, n in ds.fields if n == "tags"}
+        R.check({"gherkin::Scenario", "gherkin::Rule", "gherkin::Feature"} <= got, "classifier-tags/covers-three-levels", s_c, "the compared tag comes from scenario, rule and feature tags",
+                f"the tag compared with \"serial\" derives from the tags of {sorted(got)} only")
+    else:
+        R.check(len(searches) == 1, "classifier-search", cb, "one search over the tags", f"{len(searches)} searches in the classifier")
     if len(searches) == 1:
         sb, ss, st_ = searches[0]
         tags.check_tag_union(F, R, sb, st_["args"][0], "classifier-tags", ss, "classifier's tag")
